@@ -47,14 +47,16 @@ def job_array(num_ant, num_pols, dmax, comp, mode, reset_after):
             bg.add_noise(0, 1)
             bg.add_constant_signal(f0, 0, lvl)
         outs = []
+        clocks = []
         for ri, n in enumerate(comp):
             if reset_after is not None and ri == reset_after:
                 if reset_after == len(comp):
                     pass
                 arr.set_time(tset)
             outs.append(arr.get_samples(n))
+            clocks.append(arr.t_start)
         seeds = dict(own=[[st.rng.seed for st in ant.streams] for ant in arr.antennas], bg=[bg.rng.seed for bg in arr.bg_streams])
-        return outs, seeds, arr
+        return outs, seeds, (arr, clocks)
     with volt_patches(proxy=proxy()):
         leaves = core.explore(run, pre, cap=3000)
     conds = []
@@ -70,7 +72,7 @@ def job_array(num_ant, num_pols, dmax, comp, mode, reset_after):
                 recs.append(cex(f"C15:raise:{type(leaf.value).__name__}:{mode}", f"array construction / get_samples raised {leaf.value!r}",
                                 dict(fn='array', num_ant=num_ant, num_pols=num_pols, delays=dv, comp=list(comp), reset_after=reset_after), name=name + ':noexc'))
             continue
-        outs, seeds, arr = leaf.value
+        outs, seeds, (arr, clocks) = leaf.value
         dterms = [d.t for d in delays] if delays is not None else [RV(0)] * num_ant
         mx = dterms[0]
         for d in dterms[1:]:
@@ -103,6 +105,7 @@ def job_array(num_ant, num_pols, dmax, comp, mode, reset_after):
                         g = bg_sample(pol, bg_k + idx, seg_t0 + idx * dt)
                         pairs.append((cparts(out[i, pol, j]), (own + g, RV(0))))
             own_k += n
+            pairs.append(((lift(clocks[ri]), RV(0)), (seg_t0 + RV(own_k - seg_own0) * dt, RV(0))))
         if not shape_ok:
             recs.append(q(name + ':shape', 'sat'))
             continue
@@ -177,6 +180,9 @@ def replay_array(p):
             for pol, st in enumerate(ant.streams):
                 own = np.array(st.get_samples(n_seg))
                 want = own + bgv[pol][mx - dl[i]: mx - dl[i] + n_seg]
+                seg_start = t0 if si == 0 else 5.0
+                if abs(arr.t_start - (seg_start + n_seg / sr)) > 1e-9 and not any('array clock' in m_ for m_ in msgs):
+                    msgs.append(f"array clock {arr.t_start!r} after {n_seg} samples from t={seg_start} (expected {seg_start + n_seg / sr!r})")
                 if not np.allclose(got[i, pol], want, rtol=1e-9, atol=1e-9):
                     k = int(np.argmax(np.abs(got[i, pol] - want)))
                     msgs.append(f"segment {si} antenna {i} pol {pol}: sample {k} = {got[i, pol, k]!r}, own + background[k+max-delay] = {want[k]!r}")
